@@ -118,5 +118,7 @@ def run_file(scn, image=None):
     else:
         enc = scn.get("encoding") or "latin_1"
         fam = "ebcdic" if enc.startswith("cp") else "ascii"
-        out = decode.run_tool(image, reader, blocked, fam)
+        out = decode.run_tool(image, reader, blocked, fam,
+                              encoding=(enc if reader == "mci_ipm_to_csv" else None),
+                              cfg=msgcodec.cfg_from_json(scn.get("config", "packaged")))
     return image, out
